@@ -124,6 +124,7 @@ inductive DOp where
   | query (id : Id)
   | junk (n : Name) (d : Bytes)
   | pushFail (b : Bundle)      -- Push while the part file cannot be written
+  | staleUpdate (id : Id)      -- Store.Update with an item that was read before its record was removed
 
 def parseBundle (kw : String) (s : String) : Option Bundle :=
   match s.splitOn ":" with
@@ -141,6 +142,7 @@ def parseDesc (s : String) : Option DOp :=
   | ["update", i, p, e, pr] => do
     some (.cmd (.op (.update (← parseId i) (p == "1") (← e.toNat?) (parseProps pr))))
   | ["delete", i] => (parseId i).map fun i => .cmd (.op (.delete i))
+  | ["staleupdate", i] => (parseId i).map .staleUpdate
   | ["sweep", n] => n.toNat?.map fun n => .cmd (.sweep n)
   | ["reopen"] => some (.cmd .reopen)
   | ["query", i] => (parseId i).map .query
@@ -160,6 +162,7 @@ def opKind : DOp → String
   | .query _ => "query"
   | .junk .. => "junk"
   | .pushFail _ => "push-failed-write"
+  | .staleUpdate _ => "stale-update"
 
 /-! ### Driver state -/
 
@@ -324,6 +327,8 @@ def expectedRes (d : DState) : DOp → String
     | none => "err"
   | .query id => if (get id d.spec).isSome then "found" else "notfound"
   | .pushFail b => if specStep d.spec (.op (.push b)) == d.spec then "ok" else "err"
+  -- the record is gone: updating it fails and, above all, does not bring it back (the dump is judged)
+  | .staleUpdate id => if (get id d.spec).isSome then "ok" else "err"
   | _ => "ok"
 
 def handleOp (d : DState) (desc res : String) (dump : List String) : DState × String :=
@@ -340,6 +345,7 @@ def handleOp (d : DState) (desc res : String) (dump : List String) : DState × S
       | .query _ => (d.model, d.spec)
       | .junk n bytes => ({ d.model with files := put n bytes d.model.files }, d.spec)
       | .pushFail _ => (d.model, d.spec)   -- not acknowledged (or ignored): nothing may change
+      | .staleUpdate _ => (d.model, d.spec) -- an update of a record that was removed changes nothing
     let d' := { d with model := model', spec := spec' }
     if res != expectedRes d op then (d', s!"specfail result-after-{kind} res={res} expected={expectedRes d op}")
     else
